@@ -66,8 +66,18 @@ def _source_of(ident):
 
 
 def shrink(req):
-    """drop one source line at a time (a candidate the front end rejects is not a failure and is discarded by vlib)"""
+    """drop one source line at a time (a candidate the front end rejects is not a failure and is discarded by vlib);
+    for the name-resolution stream: one declaration / statement / use of the descriptor at a time"""
     f = req.split("\t")
+    if len(f) >= 2 and f[0] == "C04.names":
+        try:
+            r = subprocess.run([_harness_exe(), "c04", "names-shrink", f[1]], capture_output=True, text=True, timeout=60)
+        except Exception:
+            return
+        for l in r.stdout.split("\n"):
+            if l and not l.startswith("WARNING conda"):
+                yield "C04.names\t" + l + "\t?"
+        return
     if len(f) >= 2 and f[0] in ("C04.reelab", "C04.accept"):
         lines = f[1].split("\\n")
         for i in range(len(lines)):
@@ -104,6 +114,8 @@ def search(ctx):
         pass
     for src in SEARCH_SOURCES:
         out.append("C04.fix\ttext:" + src.encode().hex())
+    for d in SEARCH_NAMES:
+        out.append("C04.names\t" + d + "\t?")
     # and a slice of the literal stream with other seeds
     out += ["C04.fix\tlit:%d" % (1000003 * k + ctx.seed) for k in range(1, 120)]
     return out
@@ -124,8 +136,40 @@ SEARCH_SOURCES = [
 ]
 
 
+# descriptors of the name-resolution stream tried when an obligation about the lookup of emitted paths no longer checks
+# (`path_lookup_as_modelled`, a disagreement of C04.names): every emitted root-relative path below has its first segment
+# declared again, as another namespace / enum, in a scope between the use and the root — without the rest of the path
+SEARCH_NAMES = [
+    # a nested namespace reuses the name of a root namespace; `::Util::twice` is emitted as `Util::twice` inside `App`
+    "ns Util fn twice - end end ns App ns Util fn halve - end end fn f - uf a Util twice ; uf r Util halve ; end end",
+    # an enum named like the namespace that contains it: `Color::Color`, `Color::Color::Green` emitted inside `Color`
+    "ns Color en Color Red Green end fn index - uy r Color ; ue r Green ; ue r Color Green ; end end fn first - uf r Color index ; ue r Color Color Red ; end",
+    # a nested namespace named like its parent, used from the inner one: `N::z` / `N::N::w`
+    "ns N gv z ns N gv w fn g - uv a N z ; uv r w ; uv r N w ; end end end",
+    # global, struct, enum, function of a root namespace used from a sibling that has an inner namespace of that name
+    "ns A gv x st S end en E V end fn f - end end ns B ns A gv y end fn g - uv a A x ; ut a A S ; ue a A E V ; uy a A E ; uf a A f ; uv r A y ; end ug a A S ; end",
+    # the same from a struct method and from a nested block
+    "ns A gv x end ns B ns A gv y end st T uv a A x ; bl uv a A x ; end end end",
+    # an enum scope in between: a root namespace `E` and an enum `E` in the using namespace
+    "ns E gv x end ns M en E V end fn g - uv a E x ; ue r E V ; end end",
+]
+
+
 def nontrivial(req, obs):
-    return obs.startswith("ok:") or obs.startswith("fn ")
+    return obs.startswith("ok:") or obs.startswith("fn ") or obs.startswith("g1:u")
+
+
+def _names_class(detail):
+    """class of a failure of the name-resolution stream, from the tag of the harness's own scope simulation"""
+    import re
+    m = re.search(r"\[names: captured:([a-z]+):by-([a-z-]+)", detail or "")
+    if m:
+        by = {"fn": "namespace-level-entity", "var": "namespace-level-entity", "struct": "namespace-level-entity",
+              "enum": "namespace-level-entity", "enumval": "enum-value", "local": "local"}.get(m.group(2), m.group(2))
+        return "names:relative-path-captured/%s:by-%s" % (m.group(1), by)
+    if "[names: enum value named like a namespace of its scope]" in (detail or ""):
+        return "names:panic/enum-value-named-like-a-namespace-of-its-scope"
+    return None
 
 
 TEMPLATE_LOOKAHEAD_KEY = "rejected-by-parser: less-than ... greater-than followed by `(` is read as template arguments and a call"
@@ -134,6 +178,9 @@ TEMPLATE_LOOKAHEAD_KEY = "rejected-by-parser: less-than ... greater-than followe
 def finding_key(req, obs, detail):
     # key by the first differing line class / rejection message, not by the whole program
     import re
+    if req.startswith("C04.names\t"):
+        # the class the harness's scope simulation names, else the specific descriptor (the printed names are derived)
+        return _names_class(detail) or "C04.names\t" + req.split("\t")[1]
     m = re.match(r"FAIL:panic ([^:]+):\d+: (.*)$", detail or "")
     if m:
         return f"panic {m.group(1)}: " + re.sub(r"\d+", "N", m.group(2))
